@@ -19,8 +19,10 @@ namespace simalloc
         std::map<void *, size_t> live;
         std::multimap<size_t, void *> parked; // freed blocks kept for immediate reuse
         uint64_t allocs = 0, frees = 0;
+        bool refuse_next = false; // fault: the next request is refused (std::bad_alloc), as an exhausted heap would
         void reset(int f, bool r)
         {
+            refuse_next = false;
             for (auto &kv : parked) ::free(kv.second);
             parked.clear();
             // blocks still live from an aborted run are abandoned (never freed: a stale pointer must not be reused)
@@ -39,6 +41,12 @@ namespace simalloc
     inline void *raw_alloc(size_t bytes)
     {
         State &s = st();
+        if (s.refuse_next)
+        {
+            s.refuse_next = false;
+            kit::fault("allocation_refused");
+            throw std::bad_alloc();
+        }
         s.allocs++;
         void *p = nullptr;
         if (s.reuse)
